@@ -1,6 +1,7 @@
 import Driver.Util
 import Lattigo.Model.LinTrans
 import Lattigo.Model.LinTransLazy
+import Lattigo.Model.ParamsGen
 
 /-
   C12 line protocol.
@@ -10,7 +11,10 @@ import Lattigo.Model.LinTransLazy
     alloc <diags> <logCols> <ratio>           → N1 <keys of Vec>
     at <keys> <i> <slots>                     → key found | err
     permdiags <half> (M <row> <from> <to> <scaling>)*   → idx:vec|idx:vec
-    margin <moduli>                           → QiOverflowMargin / PiOverflowMargin (-1 without moduli)
+    margin <moduli>                           → QiOverflowMargin / PiOverflowMargin (-1 without moduli);
+                                                executes the definition REGENERATED from core/rlwe/params.go
+                                                (Gen/Params.lean via Model/ParamsGen.lean, float64 semantics
+                                                included), not the hand-written `Lazy.overflowMargin`
     eval <scheme> nth= t= rows= logcols= mode= inplace= ctlvl= ctscale= outlvl= qmodt= v=
          (LT ratio= lvl= scale= (D <idx> <vals>)*)*
 -/
@@ -177,7 +181,7 @@ def handle (toks : List String) : String :=
     | _, _ => badOp
   | ["margin", qs] =>
     match parseVec? qs with
-    | some qs => toString (Lazy.overflowMargin qs)
+    | some qs => toString (Lattigo.Model.ParamsGen.marginAll qs)
     | none => badOp
   | "eval" :: rest => (evalLine rest).getD badOp
   | _ => badOp
